@@ -6,6 +6,9 @@ package app
 // interleavings of the host's recovery check with manager iterations and a further switchover.
 
 import (
+	"github.com/yandex/mysync/internal/config"
+	"time"
+	"testing/synctest"
 	"encoding/json"
 	"fmt"
 	"os"
@@ -244,6 +247,112 @@ func TestVerifC11(t *testing.T) {
 		}
 		meta.emit(map[string]any{"scn": id, "scenario": sc})
 	}
+	// ---- part 3: the decision table of checkRecovery, cell by cell (Recovery.tla) ----
+	bools := []bool{false, true}
+	for _, rfile := range bools {
+		for _, status := range bools {
+			for _, stuck := range bools {
+				for _, stucklong := range bools {
+					for _, ismaster := range bools {
+						for _, rel := range []string{"within", "ahead"} {
+							for _, replerr := range bools {
+								for _, ro := range bools {
+									if (stucklong && !stuck) || (!status && replerr) || (ismaster && rel == "ahead") {
+										continue
+									}
+									k++
+									if k%sn != si {
+										continue
+									}
+									id := fmt.Sprintf("c11-decide-rf%v-st%v-stuck%v-long%v-m%v-%s-err%v-ro%v", rfile, status, stuck, stucklong, ismaster, rel, replerr, ro)
+									dec := c11Decide(t, id, rfile, status, stuck, stucklong, ismaster, rel, replerr, ro)
+									runs++
+									out.emit(map[string]any{"kind": "decide", "scn": id, "rfile": rfile, "status": status, "stuck": stuck, "stucklong": stucklong,
+										"ismaster": ismaster, "rel": rel, "replerr": replerr, "ro": ro, "decision": dec})
+									meta.emit(map[string]any{"scn": id, "scenario": map[string]any{"id": id}})
+								}
+							}
+						}
+					}
+				}
+			}
+		}
+	}
 	meta.emit(map[string]any{"summary": true, "runs": runs, "bases": runs, "stragglers": vStragglers})
 	_ = verifsim.Txn("")
+}
+
+// c11Decide builds one cell of the observation product around host h2 (marked for recovery, its mysync alone is
+// running), runs the REAL recovery check and reports what it did: "clear" (mark removed), "resetup" (marker file
+// written), "none", or "panic: ...".
+func c11Decide(t *testing.T, id string, rfile, status, stuck, stucklong, ismaster bool, rel string, replerr, ro bool) (dec string) {
+	dec = "none"
+	if out := os.Getenv("VERIF_OUT"); out != "" {
+		_ = os.WriteFile(out+"/current.json", []byte(fmt.Sprintf(`{"id":%q}`, id)), 0o644)
+	}
+	defer func() {
+		if r := recover(); r != nil && !strings.Contains(fmt.Sprint(r), "blocked goroutines remain") {
+			panic(r)
+		}
+	}()
+	synctest.Test(t, func(t *testing.T) {
+		hosts := []string{"h1", "h2", "h3"}
+		s := vNewSim(t, hosts, nil, func(cfg *config.Config) { cfg.Failover = false })
+		defer s.shutdown()
+		sc := &vScenario{ID: id, Hosts: hosts, Master: "h1", Manager: "h2", W: 1, Base: 3, Policy: "frozen"}
+		s.applyShape(sc)
+		hook := newHook(s, "frozen")
+		s.setHook(hook)
+		s.Z.Hook = hook
+		master := "h1"
+		if ismaster {
+			master = "h2"
+		}
+		s.Z.Put(vNS+"/"+pathMasterNode, fmt.Sprintf("%q", master))
+		s.Z.Put(vNS+"/"+pathRecovery+"/h2", "null")
+		s.W.Lock()
+		h2 := s.W.Hosts["h2"]
+		if !status {
+			h2.Src, h2.IO, h2.SQL = "", "No", false
+		}
+		if replerr {
+			h2.IO, h2.IOErrno = "No", 13114
+		}
+		if stuck {
+			h2.Pend.Add("h2:77")
+			h2.SsM = true
+			h2.KillIneffective = true
+		}
+		if rel == "ahead" {
+			h2.Exec.Add("h2:9")
+		}
+		h2.RO = "sro"
+		if !ro {
+			h2.RO = "rw"
+		}
+		s.W.Unlock()
+		in := s.startInstance("h2")
+		if rfile {
+			os.MkdirAll(s.dir+"/h2", 0o755)
+			os.WriteFile(s.dir+"/h2/mysync.resetup", []byte{}, 0o644)
+		}
+		if !in.app.dcs.WaitConnected(10 * time.Second) {
+			t.Fatal("h2 cannot connect")
+		}
+		s.recovery("h2")
+		if stucklong {
+			time.Sleep(61 * time.Second)
+			s.recovery("h2")
+		}
+		if len(in.panics) > 0 {
+			dec = "panic: " + in.panics[0]
+			return
+		}
+		if _, marked := s.zkGet(pathRecovery + "/h2"); !marked {
+			dec = "clear"
+		} else if !rfile && s.fileExists("h2", "resetup") {
+			dec = "resetup"
+		}
+	})
+	return dec
 }
